@@ -6,6 +6,7 @@ set -u
 patch=$1; tier=$2; shift 2
 wt=/tmp/seedrepo
 cd /verif
+export GOSYM_EVIDENCE_DIR=/tmp/seed_evidence  # keep /verif/evidence for the unchanged tree
 git -C $wt checkout -q --detach $(git -C /repo rev-parse HEAD) 2>/dev/null
 git -C $wt checkout -q -- . ; git -C $wt clean -fdq
 git -C $wt apply "$patch" || exit 2
